@@ -43,6 +43,10 @@ CHECKS = {
    text="BcastDKG.tla has one action per handler call of dkg/bcast (server: sign request with per-peer+id dedup, message delivery with the all-members signature check bound to session, id and payload; honest client; faulty member); TLC exhausts n=3,4 with one faulty member at every position, 2 sessions, 2 ids, 2-3 payloads (equivocation, relay, cross-session and cross-id replay, permuted / truncated / extended / substituted signature lists) for 9 invariants and 1 action property, with 5 controls that must fail; TLC-generated and scenario schedules (n in 3..6) are executed on real bcast.New components with real secp256k1 keys and every trace is validated against the same spec. The statement's agreement clause is checked as written (per transport sender and id); the one way it fails today is the recorded known finding C13-relay-foreign-payload.",
    note="Trusted: TLC; the crypto abstraction; libp2p peer authentication; the verif hook dkg/bcast/verif_export.go (synchronous handlers and in-process transport). One faulty member (two colluding ones are a documented control outside the statement).",
    technique="TLA+ spec (BcastDKG.tla) model-checked with TLC; adversarial schedules replayed on real dkg/bcast components; TLC trace validation; known-finding deviation cfg"),
+ "C20": dict(level=MC, design="6/C20", engine="DutiesCache",
+   text="DutiesCache.tla models one request as Call, ReadGen, Lookup, Fetch, Deliver, StoreOrAmend, Return for all three duty kinds, with Reorg, InvalidateCache, Trim and caller mutation of returned answers (heap-style identities); TLC exhausts all interleavings over 2-3 validators with none/one/two duties, 2 epochs, up to 3-4 requests with 2 in flight for AnswerEqualsBN, FreshAfterInvalidate, PrivateCopies, CacheSound, CacheFresh, NoDirtyCache, FetchExactlyMissing and DropsAffected; the two as-coded variants (stale store after invalidation, shared slices) must violate their invariants; TLC-generated, seeded random, concurrent and fixed probe schedules are executed on the real eth2wrap.DutiesCache over a gated versioned beacon mock and every trace, including the beacon call log, is validated step by step against the same spec.",
+   note="Trusted: TLC; the gated mock as the beacon node; call-before / ret-after event bracketing for concurrent requests; the encoding of model duties in real fields. Exhaustive only within the stated constants; beacon errors and duplicate index lists are not exercised.",
+   technique="TLA+ spec (DutiesCache.tla) model-checked with TLC; gated-mock schedules replayed on eth2wrap.DutiesCache; TLC trace validation incl. the beacon call log"),
 }
 NA = {
  "C14": "byte-level codec fidelity / crash-freedom on arbitrary bytes: no state machine, interleaving or protocol for a TLA+ specification to enumerate; the family's own guidance places encode/decode fidelity outside its reach (DESIGN.md section 7)",
